@@ -150,7 +150,7 @@ def generate(seed: int, tier: str, phase: str) -> Dict[str, Any]:
             op.update(j=r.randrange(16), n=r.randrange(1, 16), k=r.randrange(3),
                       fresh=r.random() < 0.7, T=_gen_T(r, False))
         ops.append(op)
-    if phase == "compile" and not any(o.get("T", {}).get("T") == "compile" for o in ops):
+    if phase == "compile" and not any(isinstance(o.get("T"), dict) and o["T"].get("T") == "compile" for o in ops):
         ops.insert(1, {"op": "derive", "src": r.randrange(16), "T": {"T": "compile"}})
         ops.append({"op": "call", "j": 15, "k": 0, "bwd": True, "gseed": 0})
     return {"phase": phase, "member": member, "sizes": sizes, "gen_opts": gen_opts, "mseed": r.randrange(1 << 20),
@@ -324,6 +324,9 @@ def execute(plan: Dict[str, Any]) -> Dict[str, Any]:
         # are value-preserving only to float rounding; everything else is compared bit for bit
         tol = 2e-5 if (mode["compiled"] or any(t_["T"] == "track_scales" for t_ in m.chain)) else None
         d = tw.diff(got, want, tol)
+        if d and tol is not None and not tw.diff({"outs": got["outs"]}, {"outs": want["outs"]}, tol) and \
+                tw.grads_close_globally(got, want, tol):
+            d = None  # a gradient that is pure cancellation noise is compared on the scale of all gradients
         if d:
             raise Violation("I5_applied_once_in_order",
                             "untransformed_after_recompile_limit" if fell_back else "twin_mismatch",
@@ -363,6 +366,9 @@ def execute(plan: Dict[str, Any]) -> Dict[str, Any]:
             prf.take_log()
             o.called = True
             d = tw.diff(got, other, tol)
+            if d and tol is not None and not tw.diff({"outs": got["outs"]}, {"outs": other["outs"]}, tol) and \
+                    tw.grads_close_globally(got, other, tol):
+                d = None
             if d and (c3[0] - c2[0]) > (c3[1] - c2[1]):
                 raise Violation("I5_applied_once_in_order", "untransformed_after_recompile_limit",
                                 f"{chain_key(o.chain)} on {member}: {d} {where} (while comparing two modules with the same chain)")
